@@ -2,8 +2,10 @@
    Model: coq/model/Serde.v: `decompose h g order` is graph_serde_decompose (members in the container's observed order; per
    member the edges it lists first: outgoing (directed) / the half-edges it created (undirected, after the D13 repair));
    `rebuild` is the Deserialize visitor. The wire codecs (serde_json, serde_cbor) are outside the model: documents are the
-   (nodes, edges) lists. Hypotheses: Inv h, GraphOK, Closed (every neighbour of a member is a member — otherwise the
-   document names an undeclared key and rebuild returns an error, which is C13), any iteration order. *)
+   (nodes, edges) lists. Hypotheses: Inv h, GraphOK, any iteration order, and closure of the container under the edges it writes: directed —
+   ClosedOut, every OUT-neighbour of a member is a member (incoming edges from non-members are not part of what the property
+   compares and do not matter); undirected — Closed, both half-lists. Without closure the document names an undeclared key and
+   rebuild returns an error (C13), or an incident edge has no second endpoint to return to: the known finding of C12. *)
 From Gdsl.Model Require Import Spec Serde.
 From Gdsl.Proofs Require Import SerdeProof.
 
@@ -14,7 +16,7 @@ Theorem c12_roundtrip_directed :
        forall (h : heap K V E) (g : graph K) (order : list K),
        Inv h ->
        GraphOK h g ->
-       Closed h g ->
+       ClosedOut h g ->
        OrderOK g order ->
        exists (h' : heap K V E) (g' : graph K),
          rebuild keqb (fst (decompose keqb h g order)) (snd (decompose keqb h g order)) = DeOk h' g' /\
